@@ -157,7 +157,7 @@ func allSeeds() []seed {
 				"refdct-0": true, "refdct-1": true, "refdct-2": true, "refdct-grey-dri": true,
 				"lossless-P2-c1-pred1": true, "lossless-P8-c3-pred4": true, "lossless-P12-c1-pred7": true, "lossless-P16-c3-pred1": true, "sv1-P8-c1": true, "sv1-P16-c3": true,
 				"reft81-0": true, "reft81-1": true, "reft81-2": true,
-				"jpegls-P2-c1": true, "jpegls-P8-c3": true, "jpegls-P16-c1": true, "jpegls-near-P8-c1": true, "jpegls-near-P12-c3": true, "jpegls-near-P16-c1": true, "jpegls-lse": true, "jpegls-ladder-near0": true, "jpegls-ladder-near2": true}
+				"jpegls-P2-c1": true, "jpegls-P8-c3": true, "jpegls-P16-c1": true, "jpegls-near-P8-c1": true, "jpegls-near-P12-c3": true, "jpegls-near-P16-c1": true, "jpegls-lse": true, "jpegls-lse-custom": true, "jpegls-ladder-near0": true, "jpegls-ladder-near2": true}
 			var out []seed
 			for _, sd := range seedList {
 				if sd.Fam != famJPEG || keep[sd.Name] {
@@ -274,6 +274,9 @@ func buildSeeds() {
 		i := bytes.Index(b, []byte{0xFF, 0xDA})
 		lse := []byte{0xFF, 0xF8, 0x00, 0x0D, 0x01, 0x00, 0xFF, 0x00, 0x03, 0x00, 0x07, 0x00, 0x15, 0x00, 0x40}
 		add("jpegls-lse", famJPEG, append(append(append([]byte{}, b[:i]...), lse...), b[i:]...), nil)
+		// the same with non-default thresholds (the samples then decode differently; what matters is the preset path)
+		lse2 := []byte{0xFF, 0xF8, 0x00, 0x0D, 0x01, 0x00, 0xFF, 0x00, 0x04, 0x00, 0x09, 0x00, 0x1E, 0x00, 0x40}
+		add("jpegls-lse-custom", famJPEG, append(append(append([]byte{}, b[:i]...), lse2...), b[i:]...), nil)
 	}
 	// JPEG 2000
 	type jv struct {
